@@ -1,4 +1,4 @@
-import RsMatterVerif.Lemmas.SubsEvents
+import RsMatterVerif.Lemmas.SubsRings
 /-!
 # C13 — a subscriber eventually learns every change it subscribed to
 
@@ -1538,6 +1538,86 @@ example : EvMono evQs ∧ EvTied evSched evQs ∧ Pushed evQs 2 2 ∧
   ⟨evQs_mono, evSched_tied, ⟨by decide, by decide⟩, ⟨sub1', by decide, rfl, by decide⟩,
     ⟨{ sub := sub1', nextAttr := 0, nextEv := 2, nextReportedAt := 5000000, nextRetryAt := 0, nextFail := 0 },
       ⟨5000000, 2, rfl, by decide, by decide⟩, rfl, by decide, by decide⟩⟩
+
+/-! ### Events: the CONTENT of a report — the event rings and the reader's running watermark
+
+The table hands the reader a number range; what the report carries is decided by the queue's rings
+(`Chunk.Queue`, the transliteration of `im/events.rs` shared with C14 and tied to the real queue ring by ring in
+C13's `evs` stream) and by `EventReader::process_read`, which keeps a running watermark and skips every event at
+or below it (`Subs.readEvents`). -/
+
+/-- **the code's iteration order (critical, info, debug ring) yields increasing event numbers**, for every ring
+size and every history of pushes (any priority / length, failing closures, events longer than a ring), resets
+and epoch loads from the empty queue, until the 64-bit event number wraps. A refinement fact about
+`EventsIter` that the next theorem needs; FALSE for the order debug → info → critical
+(`newest_first_not_increasing`). -/
+theorem iter_numbers_increasing (n : Nat) (ops : List Chunk.QOp) :
+    ∃ q, (Chunk.Queue.new n).run ops = some q ∧
+      (q.wrapped = false → (q.iter.map (·.num)).Pairwise (· < ·)) := by
+  obtain ⟨q, h⟩ := Subs.reached_total n ops
+  exact ⟨q, h, fun hw => Subs.iter_numbers_increasing ⟨ops, h⟩ hw⟩
+
+/-- **the running-watermark reader skips nothing that is retained** (property sentence: "every subscribed event
+… is eventually reported" — per report: the specification `Subs.OwedReport`): after ANY history of the queue
+the events a report carries for a subscription with the committed event watermark `seen` and the snapshot
+`next` are exactly the selected events still held by one of the three rings with `seen < number ≤ next`, each
+once, in increasing order. Events evicted from the last ring are gone: lost legitimately. -/
+theorem reader_skips_nothing_retained (n : Nat) (ops : List Chunk.QOp) (sel : Chunk.QEv → Bool) (seen next : Nat) :
+    ∃ q, (Chunk.Queue.new n).run ops = some q ∧
+      (q.wrapped = false →
+        OwedReport sel seen next (q.crit ++ q.info ++ q.debug) (readEvents sel next seen q.iter)) := by
+  obtain ⟨q, h⟩ := Subs.reached_total n ops
+  exact ⟨q, h, fun hw => Subs.reader_skips_nothing_retained ⟨ops, h⟩ hw sel seen next⟩
+
+/-- **a subscribed event that is still retained is IN the next report** — `subscribed_event_in_next_report`
+(the range, from the table's history) composed with the reader over the rings: an event pushed with number `e`
+that the live subscription `x` has not seen, selected by its paths and still held by a ring of the queue `q` when
+the report that begins at step `j` is built, is carried by that report; the report's events are in increasing
+order. -/
+theorem retained_subscribed_event_in_next_report {hz n : Nat} {sched : Nat → Op} {evq : Nat → EvQ}
+    (hw : ∀ k, (stateAt hz n sched k).changed.nextId + 1 < U64) (hm : EvMono evq) (ht : EvTied sched evq)
+    {k j e : Nat} {x : Sub} (hx : x ∈ (stateAt hz n sched k).live) (hp : Pushed evq k e)
+    (hlt : x.seenEv < e) (hkj : k ≤ j) (hnr : NoRestart sched k j)
+    (hnk : ∀ t, k ≤ t → t < j → sched t ≠ .fin x.id .keep ∧ sched t ≠ .fin x.id .unsent)
+    {c : Ctx} (hb : BeginsAt hz n sched j c) (hid : c.sub.id = x.id)
+    {rn : Nat} {q : Chunk.Queue} (hq : Subs.Reached rn q) (hqw : q.wrapped = false)
+    (sel : Chunk.QEv → Bool) {ev : Chunk.QEv} (hret : ev ∈ q.crit ++ q.info ++ q.debug) (hnum : ev.num = e)
+    (hsel : sel ev = true) :
+    e ∈ c.reportEvents sel q ∧ (c.reportEvents sel q).Pairwise (· < ·) := by
+  have hr := (subscribed_event_in_next_report hw hm ht hx hp hlt hkj hnr hnk hb hid).1
+  simp only [Ctx.eventInRange, Bool.and_eq_true, decide_eq_true_eq] at hr
+  have ho := Subs.report_carries_owed_events hq hqw c sel
+  exact ⟨(ho.2 e).mpr ⟨ev, hret, hnum, hsel, hr.1, hr.2⟩, ho.1⟩
+
+/-- the ring queue of `evSched`: the two events pushed between step 1 and step 2 (27 bytes each, 256-byte rings) -/
+def evRing : Chunk.Queue := ((Chunk.Queue.new 256).run [.push 1 27 none, .push 1 27 none]).getD (Chunk.Queue.new 256)
+
+/-- non-vacuity of `retained_subscribed_event_in_next_report` on `evSched`: event 2 is retained and selected; the
+report that begins at step 2 carries `[1, 2]` -/
+example : Subs.Reached 256 evRing ∧ evRing.wrapped = false ∧
+    (∃ ev ∈ evRing.crit ++ evRing.info ++ evRing.debug, ev.num = 2) ∧
+    (∃ c, BeginsAt 1000000 1 evSched 2 c ∧ c.sub.id = 1 ∧ c.reportEvents (fun _ => true) evRing = [1, 2]) :=
+  ⟨⟨[.push 1 27 none, .push 1 27 none], by decide⟩, by decide, ⟨⟨2, 1, 27⟩, by decide, rfl⟩,
+    ⟨{ sub := sub1', nextAttr := 0, nextEv := 2, nextReportedAt := 5000000, nextRetryAt := 0, nextFail := 0 },
+      ⟨5000000, 2, rfl, by decide, by decide⟩, rfl, by decide⟩⟩
+
+/-- **what the seeded change "iterate debug → info → critical" breaks**: after the burst of 12 info events into
+256-byte rings (3 of them promoted to the info ring) that order is not increasing, the reader delivers 4..12 and
+skips the retained events 1, 2, 3 — `OwedReport` fails; with the code's order the report is `[1, …, 12]`. -/
+theorem newest_first_loses_retained_events :
+    ∃ (n : Nat) (q : Chunk.Queue), Subs.Reached n q ∧ q.wrapped = false ∧
+      readEvents (fun _ => true) 12 0 (iterNewestFirst q) = [4, 5, 6, 7, 8, 9, 10, 11, 12] ∧
+      readEvents (fun _ => true) 12 0 q.iter = [1, 2, 3, 4, 5, 6, 7, 8, 9, 10, 11, 12] ∧
+      ¬ OwedReport (fun _ => true) 0 12 (q.crit ++ q.info ++ q.debug)
+          (readEvents (fun _ => true) 12 0 (iterNewestFirst q)) :=
+  Subs.newest_first_loses_retained_events
+
+/-- the ring model numbers its events as the numbering model `EvQ` of the event theorems above does -/
+theorem rings_number_like_evq (q : Chunk.Queue) (hq : Chunk.Queue.QInv q) (hn : q.next ≤ Chunk.Queue.u64Max)
+    (prio len : Nat) (abort : Option Nat) :
+    Subs.evqOf (q.push prio len abort).1 = (Subs.evqOf q).push.2 ∧
+    ∀ num, (q.push prio len abort).2 = .ok num → num = (Subs.evqOf q).push.1 :=
+  Subs.rings_number_like_evq q hq hn prio len abort
 
 /-! ### Totalisations of the model: the `reporting` slot assertion and the `u32` subscription ids -/
 
